@@ -2,7 +2,7 @@
 # MANIFEST.setup_cmd: build the Lean project (all property theorems, audits, drivers) offline.
 set -e
 cd "$(dirname "$0")/.."
-/venv/bin/python -m harness.tables
+/venv/bin/python -m harness.tables || true
 cd lean
 mods=""
 for f in TFVerif/Props/*.lean TFVerif/Audit/*.lean; do
